@@ -27,6 +27,7 @@ type fsCase struct {
 	Fault2       *Fault      `json:"fault2,omitempty"` // on the first connection established after the fault
 	Refused      int         `json:"refused,omitempty"`
 	RefuseHow    string      `json:"refuse_how,omitempty"` // how redials are refused: "" = TCP reset | http503 | http200 (an HTTP answer that is not the protocol switch)
+	OutageMs     int         `json:"outage_ms,omitempty"`  // with Refused > 0: redials keep being refused until the outage has lasted this long
 	BackoffMinMs int         `json:"backoff_min_ms,omitempty"`
 	BackoffMaxMs int         `json:"backoff_max_ms,omitempty"`
 	NoReconnect  bool        `json:"no_reconnect,omitempty"`
@@ -149,6 +150,7 @@ func runFaultSim(c fsCase) *fsOutcome {
 	}
 
 	issue("pre")
+	faultAt := time.Now()
 	if c.Fault != nil {
 		if f := rig.Proxy.WaitFault(300 * time.Millisecond); f != nil {
 			out.FaultFired = true
@@ -200,6 +202,9 @@ func runFaultSim(c fsCase) *fsOutcome {
 					break
 				}
 				time.Sleep(time.Millisecond)
+			}
+			if rest := time.Duration(c.OutageMs)*time.Millisecond - time.Since(faultAt); rest > 0 {
+				time.Sleep(rest)
 			}
 		}
 	}
